@@ -124,6 +124,48 @@ def check_pair(a, b, excl=frozenset()):
         raise Violation('nearest-monotone', case, 'a<=b but nearest(a)=%s > nearest(b)=%s' % (na, nb))
 
 
+def check_long_lived(n, upto=None):
+    """The same Version objects - one per string of the n-string subset, plus the module's own VER_2_0 / VER_3_0 - are
+    compared with each other over and over in a fixed order (every ordered pair, interleaved with nearest() look-ups).  An
+    object that remembers something from an earlier comparison (padded groups, a cached key) must still compare by the
+    reference order.  A violation is replayed by re-running the sequence up to its step.  Returns the number of steps."""
+    from hszinc import version as vmod
+    Version = _V()
+    S = triple_subset(n)
+    pool = dict((s, Version(s)) for s in S)
+    consts = [(str(c), c) for c in (getattr(vmod, 'VER_2_0', None), getattr(vmod, 'VER_3_0', None)) if c is not None]
+    k = 0
+    for a in S:
+        for b in S:
+            k += 1
+            case = {'long_lived': n, 'upto': k, 'a': a, 'b': b}
+            want = ref_cmp(a, b)
+            expect = (want < 0, want <= 0, want == 0, want != 0, want >= 0, want > 0)
+            x, y = pool[a], pool[b]
+            got = guarded('compare-raises', case, lambda: (x < y, x <= y, x == y, x != y, x >= y, x > y))
+            if got != expect:
+                raise Violation('reference-order-long-lived', case, 'objects that have been compared before: ops (lt,le,eq,ne,ge,gt)=%r reference=%r' % (got, expect))
+            got = guarded('compare-raises', case, lambda: (x < b, x <= b, x == b, x != b, x >= b, x > b))
+            if got != expect:
+                raise Violation('reference-order-long-lived', case, 'long-lived Version(a) against the string b: %r reference=%r' % (got, expect))
+            if want == 0 and hash(x) != hash(y):
+                raise Violation('hash', case, 'equal long-lived versions, different hashes')
+            if k % 7 == 0:
+                with warnings.catch_warnings():
+                    warnings.simplefilter('ignore')
+                    guarded('nearest-raises', case, Version.nearest, x)
+            for cs, c in consts:
+                w2 = ref_cmp(cs, b)
+                e2 = (w2 < 0, w2 <= 0, w2 == 0, w2 != 0, w2 >= 0, w2 > 0)
+                g2 = guarded('compare-raises', case, lambda: (c < y, c <= y, c == y, c != y, c >= y, c > y))
+                g3 = guarded('compare-raises', case, lambda: (c < b, c <= b, c == b, c != b, c >= b, c > b))
+                if g2 != e2 or g3 != e2:
+                    raise Violation('reference-order-long-lived', case, 'module constant %s against %r: %r / %r reference=%r' % (cs, b, g2, g3, e2))
+            if upto is not None and k >= upto:
+                return k
+    return k
+
+
 def check_triple(a, b, c):
     Version = _V()
     case = {'a': a, 'b': b, 'c': c}
@@ -167,6 +209,7 @@ def plan(tier, seed, excl):
     tn = 40 if tier == 'quick' else 120
     for i in range(8):
         tasks.append(('triples', {'n': tn, 'shard': i, 'of': 8}))
+    tasks.append(('long-lived', {'n': 150 if tier == 'quick' else 300}))
     for i in range(4):
         tasks.append(('random', {'shard': i, 'n': 3000 if tier == 'quick' else 60000}))
     return tasks
@@ -188,6 +231,16 @@ def triple_subset(n):
 def run(part, args, env):
     acc = Acc(part)
     excl = env['excl']
+    if part == 'long-lived':
+        try:
+            k = check_long_lived(args['n'])
+        except Violation as v:
+            acc.violation(v)
+            k = v.case.get('upto', 0)
+        acc.bulk(k, k, labels=('long-lived',))
+        acc.sample({'long_lived': args['n'], 'upto': k})
+        acc.exhaustive['ordered pairs of long-lived objects over the %d-string subset, in sequence' % args['n']] = k
+        return acc
     if part == 'pairs':
         U = universe()
         nt = 0
@@ -253,6 +306,8 @@ def run(part, args, env):
 
 
 def replay(stage, case):
+    if 'long_lived' in case:
+        return check_long_lived(case['long_lived'], case['upto'])
     if 'chain' in case:
         return check_chain()
     if 'c' in case:
